@@ -41,6 +41,15 @@ func replay(path string) int {
 		fmt.Println("replay: property held on this case")
 		return 0
 	}
+	if f.Property == "C04" {
+		c := reinput[c04Case](&f.Violation)
+		os.Setenv("VERIF_C04_ONLY", fmt.Sprintf("%d,%s,%s,%d", c.History, c.Root, c.Mode, c.KillAt))
+		tmp, _ := os.MkdirTemp(mc.ScratchDir(), "verif-replay-")
+		defer os.RemoveAll(tmp)
+		rep := mc.NewReport(tmp, "C04", "quick", "fault_enumeration")
+		checkC04(rep, false)
+		return rep.Finish()
+	}
 	rp, ok := replayers[f.Property+"/"+f.Violation.Part]
 	if !ok {
 		fmt.Fprintf(os.Stderr, "HARNESS-ERROR: no replayer for %s/%s\n", f.Property, f.Violation.Part)
